@@ -94,8 +94,15 @@ func indexEv(keys []string, offs []int64, mode string, block int, qs []string) E
 func mkOffsets(r *rand.Rand, n, block int) []int64 {
 	offs := make([]int64, n)
 	o := int64(r.Intn(1000))
-	if r.Intn(4) == 0 {
+	switch r.Intn(8) {
+	case 0:
 		o += 1 << 40 // needs all 8 bytes
+	case 1:
+		o += 1<<31 - 3000 // crosses the signed 32-bit boundary inside the list
+	case 2:
+		o += 1<<32 - 3000 // crosses the unsigned 32-bit boundary inside the list
+	case 3:
+		o += 1 << 62
 	}
 	for i := 0; i < n; i++ {
 		if i%block == 0 {
